@@ -34,7 +34,7 @@ impl Command for Cap {
     }
 }
 
-const WRAPPERS: [&str; 9] = ["not", "if", "elseif", "while", "alias", "alias1", "eval", "alias2", "aliasjump"];
+const WRAPPERS: [&str; 10] = ["not", "if", "elseif", "while", "alias", "alias1", "eval", "alias2", "aliasjump", "aliasdeep"];
 const HIST_WRAPPERS: [&'static str; 5] = ["hist:not", "hist:if", "hist:while", "hist:alias", "hist:eval"];
 
 /// mirror of `Reser.Safe` / `firstOK` / `lastOK` (cross-checked against the model on every
@@ -97,6 +97,14 @@ fn script(wrapper: &str, n: usize) -> String {
         // an alias of an alias, the inner one re-defined in between: the outer alias resolves the
         // inner NAME when it is called (two passes through the rebuilt line)
         "alias2" => format!("alias mid cap OLD\nalias outer mid\nunalias mid\nalias mid cap\nouter{}", all),
+        // a chain of 41 aliases, each naming the previous one (41 passes through the rebuilt line)
+        "aliasdeep" => {
+            let mut t = String::from("alias m1 cap\n");
+            for k in 2..=41 {
+                t.push_str(&format!("alias m{} m{}\n", k, k - 1));
+            }
+            format!("{}m41{}", t, all)
+        }
         // an alias of a command that answers with a jump: the jump is the alias's result
         // (`cap SKIPPED` must not run, `cap AFTER` must)
         "aliasjump" => format!("alias myjump capjump\nmyjump{}\ncap SKIPPED\n:c09target\ncap AFTER", all),
